@@ -84,7 +84,7 @@ assert len(CAT) == 61
 NO_IDLE_METHOD = {'Apo', 'Aroon', 'Bop', 'TypicalPrice'}
 
 # ---------------------------------------------------------------- series
-REGIMES = ['walk', 'walk', 'walk', 'flat', 'up', 'down', 'zigzag', 'ties', 'plateau', 'offset', 'outlier']
+REGIMES = ['walk', 'walk', 'wide', 'flat', 'up', 'down', 'zigzag', 'ties', 'plateau', 'offset', 'outlier', 'wide']
 
 
 def q(x):
@@ -107,7 +107,7 @@ def gen_ohlcv(rng, n, regime=None):
             if i == spike:
                 close.append(float(2 ** 30))
                 continue
-        elif regime == 'walk':
+        elif regime in ('walk', 'wide'):
             c = max(1.0, c + rng.uniform(-0.03, 0.03) * base)
         elif regime == 'flat':
             c = base
@@ -129,8 +129,13 @@ def gen_ohlcv(rng, n, regime=None):
         op = q(prev + (rng.uniform(-0.01, 0.01) * (base if regime != 'offset' else 100.0) if regime not in ('flat',) else 0))
         op = max(1 / 64.0, op)
         spread = 0.0 if regime == 'flat' and rng.random() < 0.7 else rng.choice([0, 1, 2, 5]) * (base if regime != 'offset' else 64.0) / 640
-        hi = q(max(op, c) + spread * rng.random())
-        lo = q(max(1 / 64.0, min(op, c) - spread * rng.random()))
+        if regime == 'wide':
+            # high, low (and open) vary independently of the close within low <= open, close <= high
+            hi = q(max(op, c) + rng.random() * rng.choice([0.0, 0.02, 0.1, 0.3]) * base)
+            lo = q(max(1 / 64.0, min(op, c) - rng.random() * rng.choice([0.0, 0.02, 0.1, 0.3]) * base))
+        else:
+            hi = q(max(op, c) + spread * rng.random())
+            lo = q(max(1 / 64.0, min(op, c) - spread * rng.random()))
         hi = max(hi, op, c)
         lo = min(lo, op, c)
         o.append(op); h.append(hi); l.append(lo)
